@@ -1,10 +1,18 @@
 import TinysetModel.Proofs.Repick
 import TinysetModel.Proofs.Consts
+import TinysetModel.Proofs.Plain2
+import TinysetModel.Proofs.CfgInst
+import TinysetModel.Proofs.Demo
+import TinysetModel.Proofs.TotalSites
+import TinysetModel.Proofs.TotalCfg32
 /-! C20 — every operation terminates.
 Every model function is a total Lean function (structural recursion, or fuel bounded by the table
 length / an explicit fuel argument), so "the model terminates" is checked by Lean's termination
 checker; the theorems here are the fuel-sufficiency statements for the one loop whose length is
-not bounded by a table length: the placeholder selection. -/
+not bounded by a table length: the placeholder selection — first for the scan alone, then for the
+whole plain-table `insert` that contains it (`insert_plain_returns_*`): it never ends in one of the
+model's error results (`Err.scan`, `Err.noRoom`, `Err.fuel`, …), for EVERY RNG oracle — in particular
+for a published deterministic one whose outputs the caller can predict and insert. -/
 namespace C20
 open SC
 
@@ -26,4 +34,53 @@ theorem initial_placeholder_no_loop : Gen.placeholderFloor64 = (64, 65) ∧ Gen.
 /-- non-vacuity: a table that contains the drawn value, the value after it, and the inserted value -/
 example : scanUp cfg64 [100, 101] 102 (2 + 64 + 3) 100 = some 103 := by decide
 
+/-- the whole plain-table `insert` (SetU64) — lookup, placing, growth with a random amount, and, when the value
+being inserted IS the current zero placeholder, the selection of a new placeholder and the rewrite of the table —
+returns a result for every well-formed table, every value, every RNG oracle `g` and state `d`
+(tables below `2^64 - 67` words, i.e. all that fit in memory) -/
+theorem insert_plain_returns_u64 {D : Type} (g : Rng D) {sz cap bits : Nat} {a : RH.Tbl}
+    (wf : WF cfg64 (.heap sz cap bits a)) (hpl : isPlain cfg64 bits = true) (hnd : isDense cfg64 bits = false)
+    (e : Nat) (he : e < 2 ^ 64) (d : D) (hsmall : a.size + 64 + 3 ≤ 2 ^ 64) :
+    ∃ r' b d', insertPlain cfg64 g sz cap bits a e d = .ok ((r', b), d') :=
+  insertPlain_total cfg64_ok g wf hpl hnd e he d hsmall
+/-- the same for SetU32 (tables below `2^32 - 35` words) -/
+theorem insert_plain_returns_u32 {D : Type} (g : Rng D) {sz cap bits : Nat} {a : RH.Tbl}
+    (wf : WF cfg32 (.heap sz cap bits a)) (hpl : isPlain cfg32 bits = true) (hnd : isDense cfg32 bits = false)
+    (e : Nat) (he : e < 2 ^ 32) (d : D) (hsmall : a.size + 32 + 3 ≤ 2 ^ 32) :
+    ∃ r' b d', insertPlain cfg32 g sz cap bits a e d = .ok ((r', b), d') :=
+  insertPlain_total cfg32_ok g wf hpl hnd e he d hsmall
+/-- generic form -/
+theorem insert_plain_returns {c : Cfg} (ok : CfgOK c) {D : Type} (g : Rng D) {sz cap bits : Nat} {a : RH.Tbl}
+    (wf : WF c (.heap sz cap bits a)) (hpl : isPlain c bits = true) (hnd : isDense c bits = false)
+    (e : Nat) (he : e < 2 ^ c.W) (d : D) (hsmall : a.size + c.W + 3 ≤ 2 ^ c.W) :
+    ∃ r' b d', insertPlain c g sz cap bits a e d = .ok ((r', b), d') :=
+  insertPlain_total ok g wf hpl hnd e he d hsmall
+
+/-- non-vacuity: reachable plain tables of both types; the adversarial call — inserting the current placeholder
+itself, which the caller can compute from `detRng` — returns, with a new placeholder -/
+example : ∃ r' b d', insertPlain cfg64 detRng 2 4 9838956529666160483
+    #[9223372036854775808, 9223373136366403584, 0, 0] 9838956529666160483 () = .ok ((r', b), d') :=
+  insert_plain_returns_u64 detRng Demo.plain64_wf (by decide) (by decide) _ (by decide) () (by decide)
+example : insertPlain cfg64 detRng 2 4 9838956529666160483 #[9223372036854775808, 9223373136366403584, 0, 0]
+    9838956529666160483 () =
+    .ok ((.heap 3 4 15245010169345450495 #[9223372036854775808, 9223373136366403584, 0, 9838956529666160483], true), ()) := by
+  decide +kernel
+example : ∃ r' b d', insertPlain cfg32 detRng 2 4 2940401507 #[2147483648, 2148532224, 0, 0] 2940401507 () = .ok ((r', b), d') :=
+  insert_plain_returns_u32 detRng Demo.plain32_wf (by decide) (by decide) _ (by decide) () (by decide)
+
+/-- SetU64: the recursive `insert` needs recursion depth at most 2 for every well-formed set, every value, every
+    generator and state — the re-insertion loop of a rebuilt table never enters a growth branch again -/
+theorem insert_depth_bounded_u64 {D : Type} (g : Rng D) {r : Rp} (wf : WF cfg64 r) (e : Nat) (he : e < 2 ^ 64)
+    (hsize : capacity r + 64 + 3 ≤ 2 ^ 64 ∧ 3 * len r + 4 + 64 + 3 ≤ 2 ^ 64) (d : D) :
+    ∃ r' b d', insert cfg64 g 2 r e d = .ok ((r', b), d') := insert_total_u64_fuel2 g wf e he hsize d
+
+/-- SetU32: the same bound does not hold (small growth draws make the refill grow again); kernel-evaluated witness -/
+theorem regrow_can_nest_u32 : insert cfg32 zeroRng32 3 r32 (2 ^ 20 + 32 * 1024) () = .error .fuel ∧
+    ∃ p, insert cfg32 zeroRng32 4 r32 (2 ^ 20 + 32 * 1024) () = .ok p := ⟨r32_fuel3, r32_fuel4⟩
+
 end C20
+
+#print axioms C20.placeholder_scan_terminates_u64
+#print axioms C20.placeholder_scan_terminates_u32
+#print axioms C20.insert_plain_returns_u64
+#print axioms C20.insert_plain_returns_u32
